@@ -25,7 +25,7 @@ SHARD_TIMEOUT = {"quick": 120, "thorough": 2400}
 
 SHAPES = ["close_local", "close_remote", "end_of_exec", "drop_local", "drop_remote", "error", "callback", "callback_drop",
           "remote_status", "nested_transfer", "exec_error", "reply_channel_both_dropped", "callback_then_local_close",
-          "exec_sets_callback_on_own_channel", "both_callbacks_peer_drops_first", "callback_channel_sent_back", "endmarker_callback_raises"]
+          "exec_sets_callback_on_own_channel", "both_callbacks_peer_drops_first", "callback_channel_sent_back", "endmarker_callback_raises", "error_close_to_callback_only_listener"]
 
 
 def shards(tier, seed):
@@ -453,6 +453,36 @@ def one_cycle(res, lab, rng, shape, n):
             sys.stderr = real_stderr
         if seen != [n, None]:
             res.violation("callback-transcript-wrong-with-failing-endmarker", f"cycle {n}: {seen!r}")
+    elif shape == "error_close_to_callback_only_listener":
+        # the listener keeps only its callback; the other side ends the conversation with an error (explicit close("..."),
+        # or a remote body that raises): the listener still gets its endmarker and both sides forget the conversation
+        import io
+        import sys
+
+        from vlib import pairs
+
+        got = []
+        real_stderr, sys.stderr = sys.stderr, io.StringIO()
+        try:
+            if n % 2:
+                lc, rc = lab.pair_newchannel_local()
+                lc.setcallback(got.append, endmarker="end")
+                del lc
+                gc.collect()
+                rc.send(n)
+                pairs.wait_until(lambda: n in got, 15.0)
+                rc.close("the sender gives up")
+                rc.waitclose(10)
+            else:
+                ch = gw.remote_exec("channel.send(%d)\ntry:\n    channel.receive()\nexcept EOFError:\n    pass\nraise ValueError('body fails after the listener dropped its end')" % n)
+                ch.setcallback(got.append, endmarker="end")
+                del ch
+                gc.collect()
+            pairs.wait_until(lambda: "end" in got, 15.0)
+        finally:
+            sys.stderr = real_stderr
+        if got != [n, "end"]:
+            res.violation("endmarker-withheld-after-error-close-to-callback-only-listener", f"cycle {n}: callback saw {got!r}")
     elif shape == "exec_sets_callback_on_own_channel":
         ch = gw.remote_exec("seen = []\nchannel.setcallback(seen.append, endmarker=None)\nchannel.send('ready')")
         assert ch.receive(10) == "ready"
